@@ -21,6 +21,7 @@ from common import Model, hx, exc_name
 logging.disable(logging.CRITICAL)
 
 LEAN_TARGETS = ["NfcVerif.Props.C14", "drv_c14"]
+PARTS = ["crcuse"]   # use sites of the CRC helpers in the drivers (harness/props/c14_crcuse.py)
 
 THEOREMS = [
     "NfcVerif.C14.pn53x_build_valid",
